@@ -631,6 +631,7 @@ class Combiner(Node):
             if self.state == "SETUP_STATE":
                 
                 print(f"T={self.env.now:.2f}: {self.id} is in SETUP_STATE")
+                self.update_state("SETUP_STATE", self.env.now)  # start the clock so that the set-up period is charged to SETUP_STATE
                 yield self.env.timeout(self.node_setup_time)# always an int or float
                 self.update_state("IDLE_STATE", self.env.now)
 
@@ -723,6 +724,7 @@ class Combiner(Node):
                 self.stats["processing_delay"].append(next_processing_time)  # Update the processing delay in stats
                 print(f"T={self.env.now:.2f}: {self.id} worker started processing item {self.item_in_process.id} ")
                 self.check_thread_state_and_update_combiner_state()  # Check and update the combiner state based on worker states
+                self.update_state("PROCESSING_STATE", self.env.now)  # the pallet is packed here, before the worker that pushes it exists
                 processing_start_time = self.env.now
                 #wait for processing_delay amount of time
                 yield self.env.timeout(next_processing_time)
